@@ -34,6 +34,23 @@ class StlHorizon(LtlHorizon, StlAstVisitor):
     def visit(self, node, *args, **kwargs):
         return StlAstVisitor.visit(self, node, *args, **kwargs)
 
+    def sample_duration(self):
+        # duration of one sample (the look-ahead of next/s_next) in the default unit
+        if self.ast is None:
+            return 1
+        period = self.ast.sampling_period * self.ast.U[self.ast.sampling_period_unit]
+        return Fraction(period, self.ast.U[self.ast.unit])
+
+    def visitNext(self, node, *args, **kwargs):
+        op_horizon = self.visit(node.children[0], *args, **kwargs)
+        self.horizons[node] = op_horizon + self.sample_duration()
+        return self.horizons[node]
+
+    def visitStrongNext(self, node, *args, **kwargs):
+        op_horizon = self.visit(node.children[0], *args, **kwargs)
+        self.horizons[node] = op_horizon + self.sample_duration()
+        return self.horizons[node]
+
     def visitTimedEventually(self, node, *args, **kwargs):
         op_horizon = self.visit(node.children[0], *args, **kwargs)
         begin, end = bounds_in_default_unit(node, self.ast)
